@@ -2,6 +2,7 @@
 
 Correspondence: the real `paths_from_path` vs Model/Discovery.v on real directory trees built in a temp dir (the model's file system is obtained
 by SCANNING the real tree, the pathspec oracle table by calling the real library on every (ignore file, candidate path) pair).
+The model follows /repo after commit 08d2a28 (repair of finding F8); the F8 witness is kept as a pinned scenario (section 0 of run()).
 Monitor: two oracles written from the property text run on the real outputs: (O1) the selection is the same for every spelling of one target
 from one working directory; (O2) the selection is exactly {files under the path with a configured extension, not matched by an applicable
 ignore file}.
@@ -841,6 +842,16 @@ def run(ctx, coq_ok):
 
     R = ROOT
     try:
+        # ---- 0. pinned regression scenario for finding F8 (repaired in /repo by 08d2a28): src/.sqlfluffignore = "x.sql", files src/x.sql and
+        # src/sub/x.sql; "." used to select src/sub/x.sql, "src" and the absolute spelling did not.  If the defect returns, O1 reports
+        # key=spelling-dependent-selection attrs={spelling: relative, direction: extra, ignore_file_depth: ">=1 below the given path"}.
+        shape = {"src": {"sub": {}}}
+        r = fresh(shape, files={R: [], R + "/src": ["x.sql"], R + "/src/sub": ["x.sql"]})
+        r.run_case("F8-pin", shape, {R + "/src": {".sqlfluffignore": ["x.sql"]}}, grid_queries([R, R + "/src", R + "/src/sub"], [R, R + "/src", OUTSIDE]),
+                   files={R: [], R + "/src": ["x.sql"], R + "/src/sub": ["x.sql"]})
+        r.run_case("F8-pin", shape, {}, grid_queries([R, R + "/src"], [R]), files={R: [], R + "/src": ["x.sql"], R + "/src/sub": ["x.sql"]})
+        shutil.rmtree(r.top)
+
         # ---- A. full tree of depth 2: one ignore file anywhere; two ignore files; two-line files; working paths
         shape = full_shape(2)
         dirs = shape_dirs(shape)
@@ -890,14 +901,14 @@ def run(ctx, coq_ok):
             r = fresh(shape)
             inner = [d for d in dirs if d != R]
             for d in ([d for d in inner if d.count("/") == 1] if deep or quick else dirs):
-                for p in (["a.sql"] if quick else ["a.sql", "sub/"] if deep else PATTERNS):
+                for p in (["a.sql"] if quick or deep else PATTERNS):
                     r.run_case("shape%d" % si, shape, {d: {".sqlfluffignore": [p]}}, grid_queries(dirs, [R] if deep or quick else [R, inner[0]]))
             queue.flush(force=False)
             shutil.rmtree(r.top)
 
         lap("C_shapes")
         # ---- D. seeded random trees, ignore files, flags
-        for i in range(8 if quick else 300):
+        for i in range(8 if quick else 200):
             random_case(ctx, fresh, i)
             queue.flush(force=False)
 
